@@ -4,6 +4,11 @@ manifest is always valid)."""
 import json, sys
 
 CHECKS = {
+ "C17": dict(
+   text="Error discipline and traversal structure behind missing-node detection and repair, decided on every path: at each of the trie's node lookups every error-path return yields a real error (never the benign 'not present' sentinel, never success); the branch arm of the traversal keeps visiting the remaining children, counts absent-node sentinels and reports under counter != 0; the sentinel set counted by the traversal equals the set the detector maps to 'missing'; nodes handed out by the donor store during repair are stored under their own hash without being modified.",
+   note="Does not decide exactness of the reported key set for every removal subset. Path enumeration per function is capped at 4096 acyclic paths.",
+   technique="error-path return classification with feasible-path facts, loop/counter structure check, sentinel-set agreement, provenance dataflow (FRESH) on go/ssa",
+   ref="DESIGN.md section 5 C17"),
  "C14": dict(
    text="Addressing and codec agreement decided structurally: at every store write site the key is the hash of the very node written (insertNode stamp-hash-put, UpdateChanges keys[i]=hash(nodes[i]), persistent store Encode() under the given key, memory/layered stores pass key and node unchanged); the type-code tables of writer and reader are inverse; origin tracker and node header are written and read in the same (byte order, field) sequence; per node type separators written = separators scanned, fields written and read in the same order, child keys hex on both sides, and separator-unsafe fields only after the last separator.",
    note="Does not decide byte-exact round trip for every value. AGREE-fields reads the codec functions' syntax (typed AST) and accepts only constant-bound loops; other shapes are reported as undecided.",
